@@ -591,3 +591,18 @@ var originPremises = map[string]func(e *Engine) (bool, string){
 		return true, ""
 	},
 }
+
+// C10.infolive - the same premise, stated for the rebalance: RebalanceBondTokenWeights (and the two other end-of-block
+// walks) iterate the validator-info records and stop at the first record whose validator x/staking does not have
+// (the lookup error ends the callback and is then overwritten by the iterator's nil result).  A record that outlives
+// its validator therefore silently cuts every validator behind it out of the rebalance (round 15, C10o: the removal
+// hook kept the record while it has shares; validators sorting after the removed one were no longer adjusted).
+func init() {
+	register(&Rule{ID: "C10.infolive", Props: []string{"C10"}, Floor: 1,
+		Doc: "validator-info records do not outlive their x/staking validator (the rebalance walk stops at such a record)",
+		Run: func(e *Engine, r *RuleRun) {
+			prem := originPremises["alliance.EndBlocker | keeper.Keeper.GetAllianceValidator | NEW(fmt.Errorf#1)"]
+			holds, why := prem(e)
+			r.Check(holds, "keeper.Hooks.AfterValidatorRemoved", "validator info removed with the validator", "DeleteValidatorInfo on every success path", "info records can outlive their validator: "+why+"; RebalanceBondTokenWeights stops its walk at the first such record, and every validator whose address sorts after it is neither counted nor adjusted any more")
+		}})
+}
